@@ -43,40 +43,32 @@ def all_targets(eng):
     return out
 
 
-def expand_splits(eng, cls):
-    """Case splits of a receiver class that are verified as separate targets (in parallel): the class of a
-    polymorphic object field (and, for _Linear, its regression variant)."""
+def expand_splits(eng, cls, prefix='self'):
+    """Case splits of a receiver class that are verified as separate targets (in parallel): the classes of its
+    polymorphic object fields (recursively) and the string variants (e.g. the regression of _Linear)."""
     from . import spec as specmod
     import re
     out = [{}]
     if cls is None:
         return out
-    decls = specmod.class_fields(eng.repo, cls)
-
-    def variants(prefix, decl):
-        m = re.match(r'^str:\{(.*)\}', decl)
+    for f, d in specmod.class_fields(eng.repo, cls).items():
+        d = d.replace(' const', '')
+        name = '%s_%s' % (prefix, f)
+        alts = None
+        m = re.match(r'^str:\{(.*)\}', d)
         if m:
-            return [{prefix: a.strip()} for a in m.group(1).split('|')]
-        m = re.match(r'^obj:\{(.*)\}', decl)
+            alts = [{name: a.strip()} for a in m.group(1).split('|')]
+        m = re.match(r'^obj:\{(.*)\}', d)
         if m:
-            res = []
+            alts = []
             for a in m.group(1).split('|'):
                 a = a.strip()
-                sub = specmod.class_fields(eng.repo, a)
-                inner = [{}]
-                for f, d in sub.items():
-                    if d.startswith('str:{'):
-                        inner = variants(prefix + '_' + f, d)
-                for i in inner:
-                    r = {prefix: a}
-                    r.update(i)
-                    res.append(r)
-            return res
-        return None
-    for f, d in decls.items():
-        v = variants('self_' + f, d.replace(' const', ''))
-        if v:
-            out = [dict(a, **b) for a in out for b in v]
+                for inner in expand_splits(eng, a, name):
+                    r = {name: a}
+                    r.update(inner)
+                    alts.append(r)
+        if alts:
+            out = [dict(x, **y) for x in out for y in alts]
     return out
 
 
@@ -103,7 +95,7 @@ def _gen_worker(target):
         for ob in obs:
             out.append(dict(name=ob.name, func=ob.func, kind=ob.kind, props=list(ob.props), detail=ob.detail,
                             expect_sat=ob.expect_sat, smt2=ob.smt2, clause=ob.meta.get('clause', ''),
-                            axioms=ob.axioms_used, path=getattr(ob, 'path', [])))
+                            axioms=ob.axioms_used, path=getattr(ob, 'path', []), trivial=ob.trivial()))
         return target, out, probs, time.time() - t0, None
     except Exception:
         return target, [], [], time.time() - t0, traceback.format_exc()
@@ -140,8 +132,11 @@ def unique_names(records):
 
 def solve_records(records, timeout_ms, jobs):
     from . import smt
-    tasks = [(i, r['smt2'], timeout_ms, r['expect_sat'], ('cvc5',)) for i, r in enumerate(records)]
+    tasks = [(i, r['smt2'], timeout_ms, r['expect_sat'], ('cvc5',)) for i, r in enumerate(records) if not r.get('trivial')]
     out = [None] * len(records)
+    for i, r in enumerate(records):
+        if r.get('trivial'):
+            out[i] = ('unsat', 0.0, None, '', 'syntactic (goal is a hypothesis)', {})
     if jobs > 1 and len(tasks) > 1:
         with mp.get_context('fork').Pool(jobs) as pool:
             for idx, res, dt, model, reason, backend, extra in pool.imap_unordered(smt._worker, tasks, chunksize=1):
@@ -175,6 +170,12 @@ def settle_covers(records):
                 if r['status'] != 'discharged':
                     drop.add(id(r))
     return [r for r in records if id(r) not in drop]
+
+
+def norm_name(name):
+    """obligation name without the per-run ordinal and without source line numbers (stable under harmless edits)"""
+    name = name.split('@')[0]
+    return re.sub(r'line \d+', 'line', name)
 
 
 def load_json(path, default):
@@ -233,6 +234,16 @@ def finish(eng, prop, tier, seed, targets, records, problems, crashes, missing, 
     known = load_json(os.path.join(ROOT, 'known_findings.json'), {'findings': [], 'fixed': []})
     baseline = load_json(os.path.join(ROOT, 'baseline_obligations.json'), {})
     base_names = set(baseline.get('discharged', []))
+    if getattr(args, 'write_baseline', False):
+        good, bad = set(), set()
+        for r in records:
+            (good if r['status'] == 'discharged' else bad).add(norm_name(r['name']))
+        with open(os.path.join(ROOT, 'baseline_obligations.json'), 'w') as f:
+            json.dump({'_doc': 'normalised names of the obligations discharged on the unchanged tree (written by '
+                               './check all --write-baseline); an obligation listed here that is no longer discharged '
+                               'is reported as a violation',
+                       'source_digest': eng.repo.digest, 'discharged': sorted(good - bad)}, f, indent=0)
+        print('baseline written: %d names' % len(good - bad))
     lines = []
     violations = []
     undecided = []
@@ -256,7 +267,7 @@ def finish(eng, prop, tier, seed, targets, records, problems, crashes, missing, 
         if f is not None and (prop == 'all' or prop in f.get('properties', [prop])):
             known_hits.append((f, r))
             continue
-        if r['status'] == 'refuted' or r['name'] in base_names or base in base_names:
+        if r['status'] == 'refuted' or norm_name(r['name']) in base_names:
             violations.append(r)
         else:
             undecided.append(r)
